@@ -1,0 +1,31 @@
+//go:build verif
+
+package ordered
+
+// VerifSlot is one raw storage slot of a Map, tombstones included.
+type VerifSlot[K comparable, V any] struct {
+	Key     K
+	Value   V
+	Deleted bool
+}
+
+// VerifDump returns a copy of the raw storage of m (slots in storage order,
+// tombstones included) and of its index. hasIndex is false for a zero-value
+// Map whose index has not been allocated yet. It never mutates m.
+func (m *Map[K, V]) VerifDump() (slots []VerifSlot[K, V], index map[K]int, hasIndex bool) {
+	if m == nil {
+		return nil, nil, false
+	}
+	slots = make([]VerifSlot[K, V], len(m.items))
+	for i, it := range m.items {
+		slots[i] = VerifSlot[K, V]{Key: it.Key, Value: it.Value, Deleted: it.deleted}
+	}
+	if m.index == nil {
+		return slots, nil, false
+	}
+	index = make(map[K]int, len(m.index))
+	for k, v := range m.index {
+		index[k] = v
+	}
+	return slots, index, true
+}
